@@ -61,7 +61,8 @@ def check_panics(d, rs):
     dead = [False] * k          # a callback panicked and the module was not restarted since
     dead_at = [None] * k
     pending = [False] * k       # a restart of the module is pending
-    panics = []                 # modules of callback panics, in order
+    panics = []                 # (module, on_panic_catch when it panicked) of callback panics, in order
+    catching = [mod["catch"] for mod in d["mods"]]      # Stereotyp.on_panic_catch in force, as the log lets a reader follow it
     task_panics = [0] * k
     for phase, t, mask, recs in run.units():
         ms = {rec_mod(r) for r in recs}
@@ -84,11 +85,16 @@ def check_panics(d, rs):
             dead[m] = False; pending[m] = False
         after = False
         for r in recs:
-            if after and r[0] not in (R_CANCEL, R_RESET) and not (is_restart and d["mods"][m]["catch"]) and phase != "end":
+            if after and r[0] not in (R_CANCEL, R_RESET) and phase != "end":
                 raise Bad("module %d: %s follows the panic of its callback in the same event" % (m, r))
+            if r[0] == R_SETCATCH:
+                catching[m] = r[3]
             if r[0] == R_PANIC:
+                if r[3] != catching[m]:
+                    raise Bad("module %d panics with on_panic_catch = %d although the stereotype it last set (or was built with) says %d"
+                              % (m, r[3], catching[m]))
                 if r[2] == 0:
-                    after = True; panics.append(m); dead[m] = True; dead_at[m] = now
+                    after = True; panics.append((m, catching[m])); dead[m] = True; dead_at[m] = now
                 else:
                     task_panics[m] += 1
         req = request_of(now, recs, m)
@@ -100,9 +106,10 @@ def check_panics(d, rs):
                     raise Bad("is_active(module %d) is true after the event at %d although its callback panicked at %s" % (i, t, dead_at[i]))
     # errors_exact
     got_p = [r[2] for r in run.errs if r[1] == 0]
-    want_p = [m for m in panics if not d["mods"][m]["catch"]]
+    want_p = [m for m, c in panics if not c]
     if got_p != want_p:
-        raise Bad("run() returned PanicErrors for modules %s; the non-catching modules that panicked are, in order, %s" % (got_p, want_p))
+        raise Bad("run() returned PanicErrors for modules %s; the modules that panicked while their stereotype did not catch panics "
+                  "are, in order, %s" % (got_p, want_p))
     for r in run.errs:
         if r[1] not in (0, 1) or not 0 <= r[2] < k:
             raise Bad("unexpected error entry %s" % (r,))
@@ -169,7 +176,11 @@ def mechanisms(script, out):
                 kind = "handle_message" if any(x[0] == R_MSG for x in recs) else ("at_sim_end" if phase == "end" else
                        ("restart_at_sim_start" if phase == "loop" else "at_sim_start"))
                 ms.add("panic_in_" + kind)
-                ms.add("catching_stereotype" if d["mods"][r[1]]["catch"] else "non_catching_stereotype")
+                ms.add("catching_stereotype" if r[3] else "non_catching_stereotype")
+                if any(x[0] == R_SETCATCH and x[1] == r[1] for x in recs):
+                    ms.add("stereotype_set_in_the_panicking_callback")
+                if r[3] != d["mods"][r[1]]["catch"]:
+                    ms.add("stereotype_changed_before_panic")
                 if any(x[0] in (R_SHUT, R_QUIET) and x[1] == r[1] for x in recs):
                     ms.add("panic_after_shutdown_request")
                 if any(x[0] in (R_SEND, R_SCHED) and x[1] == r[1] for x in recs):
@@ -185,9 +196,10 @@ def mechanisms(script, out):
         for r in recs:
             if r[0] == R_PANIC and r[2] == 0:
                 seen.add(r[1])
-    if len(set(panics)) >= 2:
+    pm_ = [m for m, c in panics]
+    if len(set(pm_)) >= 2:
         ms.add("several_modules_panic")
-    if len(panics) > len(set(panics)):
+    if len(pm_) > len(set(pm_)):
         ms.add("module_panics_again_after_restart")
     if any(r[1] == 1 for r in run.errs):
         ms.add("join_error_reported")
@@ -251,6 +263,18 @@ def gen_script(rng):
         place(d, s)
     for m in d["mods"]:
         m["catch"] = rng.randint(0, 1)
+    # the stereotype is a Cell: it may be changed in the very callback that panics (just before the panic!()), in an earlier
+    # callback or task of the module, or after the panic
+    for (mm, kind, i, pos) in sorted(set(chosen), key=lambda s: -s[3]):
+        r = rng.random()
+        prog = d["mods"][mm]["end"] if kind == "end" else d["mods"][mm][kind][i]
+        if r < 0.35:
+            at = prog.index(("panic",)) if ("panic",) in prog else 0
+            prog.insert(rng.randint(0, at), ("setcatch", rng.randint(0, 1)))
+        elif r < 0.5:
+            other = rng.choice(["start", "msg", "tasks"])
+            if d["mods"][mm][other]:
+                rng.choice(d["mods"][mm][other]).insert(0, ("setcatch", rng.randint(0, 1)))
     cb = [s[0] for s in chosen if s[1] != "tasks"]
     if cb and rng.random() < 0.6:
         d["variant"] = rng.choice(cb)
